@@ -85,6 +85,58 @@ def file_image_check(ctx, stats, lmq, exe, sess, m, typ, extra, iv, binf, base, 
         ctx.file_image_breaks = getattr(ctx, "file_image_breaks", []) + [("correspondence:file-image:" + typ, what, rq)]
 
 
+def big_file_stream(ctx, stats, lmq, problems):
+    """files whose search structure exceeds 2 MiB (the aligned huge-page allocation path of util/mmap.cc, sizes that are not page
+    multiples): a dense model written by both methods, with and without the strings, two probing multipliers and the trie, loaded back
+    by two load methods; same oracles as the main stream (answers, order/bound, enumeration, byte-identical write methods)"""
+    rng = ctx.rng
+    dm = lc.gen_dense_model(rng)
+    sess = lc.Session(ctx, dm, "bigfile")
+    qs = lc.gen_queries(rng, dm, ctx.pick(40, 300))
+    base = {"arpa": "<lmcommon.gen_dense_model, VERIF_SEED %s>" % ctx.seed, "generator": "lmcommon.gen_dense_model", "queries": qs[:10]}
+    stats["big_files"] = 0
+    stats["big_file_max_bytes"] = 0
+    for typ, extra in (("probing", ["mult=3"]), ("probing", ["mult=%s" % rng.choice(["1.7", "2", "2.2", "2.6"])]), ("trie", []), ("atrie", ["bhiksha=%d" % rng.choice([3, 22, 64])])):
+        ref = sess.run_impl(lmq, typ, qs, opts=extra + ["enumerate=1"], timeout=600)
+        stats["impl_runs"] += 1
+        if not ref["head"].startswith("loaded") or len(ref["lines"]) != len(qs):
+            continue
+        rh = head_fields(ref["head"])
+        digests = {}
+        for wm in ("after", "mmap"):
+            for iv in ("1", "0"):
+                binf = os.path.join(sess.dir, "big.%s.%s.%s.bin" % (typ, wm, iv))
+                b = sess.run_impl(lmq, typ, qs, opts=extra + ["write_mmap=" + binf, "write_method=" + wm, "include_vocab=" + iv, "enumerate=1"], timeout=600)
+                stats["impl_runs"] += 1
+                rq = dict(base, type=typ, write_method=wm, include_vocab=iv, opts=extra, stream="big-file")
+                if not b["head"].startswith("loaded"):
+                    problems.append(("spec:build-fails:" + typ, "building the (large) binary file fails although the ARPA loads: " + b["head"], rq))
+                    continue
+                stats["big_files"] += 1
+                stats["big_file_max_bytes"] = max(stats["big_file_max_bytes"], os.path.getsize(binf))
+                digests[(wm, iv)] = hashlib.sha256(open(binf, "rb").read()).hexdigest()
+                for lmeth in (["lazy", "read"] if ctx.quick else ["lazy", "populate", "populate_read", "read"]):
+                    o = ["load_method=" + lmeth] + (["enumerate=1"] if iv == "1" else [])
+                    r = sess.run_impl(lmq, typ, qs, model_file=binf, opts=o, timeout=600)
+                    stats["impl_runs"] += 1
+                    rq2 = dict(rq, load_method=lmeth)
+                    if not r["head"].startswith("loaded"):
+                        problems.append(("spec:reload-fails:" + typ, "the (large) binary file does not load: %s %s" % (r["head"], r["err"][-200:]), rq2))
+                        continue
+                    h = head_fields(r["head"])
+                    if r["lines"] != ref["lines"]:
+                        problems.append(("spec:answers-differ:" + typ, "the (large) binary model answers differently from the ARPA-built model", rq2))
+                    if h.get("order") != rh.get("order") or h.get("bound") != rh.get("bound"):
+                        problems.append(("spec:order-bound:" + typ, "order/bound differ after the round trip of the large file", rq2))
+                    if iv == "1" and h.get("enum") != rh.get("enum"):
+                        problems.append(("spec:enumerate:" + typ, "vocabulary enumeration differs after the round trip of the large file", rq2))
+                os.remove(binf)
+        for iv in ("1", "0"):
+            if ("after", iv) in digests and ("mmap", iv) in digests and digests[("after", iv)] != digests[("mmap", iv)]:
+                problems.append(("spec:write-method-bytes:" + typ, "write_method mmap and after produce different (large) files", dict(base, type=typ, include_vocab=iv, stream="big-file")))
+    shutil.rmtree(sess.dir, ignore_errors=True)
+
+
 def run(ctx):
     pres = vlib.coq_prove("C04")
     ctx.set_proof(pres)
@@ -191,6 +243,8 @@ def run(ctx):
         shutil.rmtree(sess.dir, ignore_errors=True)
         if len(problems) > 15:
             break
+    if not ctx.replay_model:
+        big_file_stream(ctx, stats, lmq, problems)
     ctx.count("evaluations", stats["impl_runs"])
     ctx.coverage["models"] = nmodels
     ctx.coverage["distinct_nontrivial"] = nontrivial
